@@ -36,6 +36,9 @@ def symcoef_jobs(name, ops, tier, seed, extra_configs=()):
         lazy = [dict(p=7, random=10, modes=['sparse', 'perm']), dict(p=4, q=3, r=1, random=8, modes=['sparse', 'perm']), dict(p=6, q=0, r=1, random=8, modes=['sparse'])]
         chunks = [cfgs + lazy] + [[c] for c in d2] + [rnd[i::6] for i in range(6)]
         bound = 'all ordered pairs for d<=1; all 65^2 ordered-subset pairs per d=2 signature; 40-60 seeded patterns per signature d<=5; sparse patterns in d = 7, 8 (lazy sign table)'
+    # by-name dispatch: with a wrapper set the generated functions are looked up in algebra.numspace by their names; two rounds
+    chunks = chunks + [[dict(p=3, wrapper='identity', random=5, rounds=2), dict(p=2, q=0, r=1, wrapper='wraps', random=5, rounds=2)]]
+    bound += '; two algebras with a wrapper (by-name dispatch), every operator asked twice per pattern'
     for i, ch in enumerate(chunks):
         jobs.append({'name': f'symcoef[{name}]#{i}', 'bound': bound,
                      'job': {'kind': 'symcoef', 'ops': list(ops), 'configs': list(ch) + (list(extra_configs) if i == 0 else []),
